@@ -68,6 +68,8 @@ class PPOps (R : Type) extends OfScientific R, Add R, Sub R, Mul R, Div R, Neg R
   r32 : R → R
   /-- `x as i32`: truncation toward zero, saturating at the `i32` range, NaN ↦ 0 -/
   truncI32 : R → Int
+  /-- `f64::ceil` -/
+  ceil : R → R
   /-- `std::f64::consts::PI` -/
   pi : R
   /-- `f64::INFINITY`, `f64::NEG_INFINITY`, `f64::NAN` as *results* -/
